@@ -172,6 +172,16 @@ func (r *srvRun) replayInput(sc *srvScenario) any {
 type schedReplay struct {
 	Scenario srvScenario `json:"scenario"`
 	Choices  []int       `json:"choices"`
+	PickSeed int64       `json:"pickseed"`
+}
+
+// picker returns the recorded choice list, or — for a run that crashed before it could record
+// one — the picker seed it was started with.
+func (sr *schedReplay) picker() func(int) int {
+	if len(sr.Choices) == 0 && sr.PickSeed != 0 {
+		return rngPick(rand.New(rand.NewSource(sr.PickSeed)))
+	}
+	return sr.picker()
 }
 
 func loadSchedReplay() (*schedReplay, bool) {
@@ -233,7 +243,7 @@ func TestC03(t *testing.T) {
 		metas = append(metas, r.replayInput(sc))
 	}
 	if sr, ok := loadSchedReplay(); ok {
-		runOne(&sr.Scenario, replayPick(sr.Choices))
+		runOne(&sr.Scenario, sr.picker())
 	} else {
 		nScen, nSched := pick(300, 3000), pick(10, 30)
 		for i := 0; i < nScen; i++ {
@@ -254,7 +264,7 @@ func TestC03(t *testing.T) {
 				}
 			}
 			for j := 0; j < nSched; j++ {
-				runOne(sc, rngPick(rand.New(rand.NewSource(rng.Int63()))))
+				runOne(sc, seededPick(rng))
 			}
 		}
 		// corpus: the barrier-skipping shapes
@@ -266,7 +276,7 @@ func TestC03(t *testing.T) {
 		}
 		for _, sc := range corpus {
 			for j := 0; j < pick(40, 400); j++ {
-				runOne(sc, rngPick(rand.New(rand.NewSource(rng.Int63()))))
+				runOne(sc, seededPick(rng))
 			}
 		}
 	}
